@@ -313,7 +313,7 @@ func (n *Node) yang(b *strings.Builder, d int) {
 			b.WriteString("type enumeration {\n")
 			for _, e := range n.Enums {
 				ind(b, d+2)
-				fmt.Fprintf(b, "enum %s;\n", e)
+				fmt.Fprintf(b, "enum %s;\n", yangArg(e))
 			}
 			ind(b, d+1)
 			b.WriteString("}\n")
@@ -747,4 +747,20 @@ func subSchema(r *kit.Rng, caps Caps, name string) *Node {
 	m := cp(caps.Fixture)
 	m.Name = name
 	return m.Link()
+}
+
+// yangArg writes a statement argument: bare when it is an identifier, else a
+// double-quoted string with the escapes RFC 7950 6.1.3 defines.
+func yangArg(a string) string {
+	plain := a != ""
+	for _, c := range a {
+		if !(c >= 'a' && c <= 'z' || c >= 'A' && c <= 'Z' || c >= '0' && c <= '9' || c == '_' || c == '-' || c == '.') {
+			plain = false
+		}
+	}
+	if plain {
+		return a
+	}
+	r := strings.NewReplacer("\\", "\\\\", "\"", "\\\"", "\t", "\\t", "\n", "\\n")
+	return "\"" + r.Replace(a) + "\""
 }
